@@ -7,8 +7,9 @@ from harness.core import Z, S, L, O, T, B
 MODEL_MODS = ["Model.Pitch", "Model.Rel", "Model.Render", "Model.Slice", "Model.Project"]
 RULE = ("sources: scores from the shared generator padded so that every part lasts its chord, parts absent from some chords; targets: "
         "progressions of 1..5 chords with different chord counts and boundaries (misaligned with the source), shorter and longer than the "
-        "source, different tonalities/modes/octaves, with their own parts (disjoint names) for keep_score; modes: plain, default "
-        "(voice leading), keep_pitch, keep_score; non-trivial = a target boundary cuts a source note")
+        "source, different tonalities/modes/octaves, with their own parts (disjoint names) for keep_score, these opening later chords with "
+        "relative notes in the keep_score cases of the modes stream; one-chord sources through Chord.project_on_score; modes: plain, default "
+        "(voice leading), keep_pitch, keep_score (with both); non-trivial = a target boundary cuts a source note")
 TRUSTED = ["tick scaling"]
 ASSUMPTIONS = ["every part of the source lasts as long as its chord (the statement's guard)", "tag-free notes; keep_pitch sources have no leading relative notes"]
 
@@ -25,6 +26,20 @@ def rand_target(rng):
             c["parts"].append([nm, [{"kind": "s", "val": rng.randrange(7), "oct": 0, "dur": d, "amp": 66}]])
         out.append(c)
     return out
+
+
+def relative_heads(rng, tgt):
+    """give the target's parts relative notes at chord heads (their reference pitch lies in the previous chord); the parts are made present
+    in every chord so that the reference exists"""
+    names = [nm for nm, _ in tgt[0]["parts"]]
+    for k, c in enumerate(tgt):
+        d = F(c["parts"][0][1][0]["dur"])
+        c["parts"] = [[nm, [{"kind": "s", "val": rng.randrange(7), "oct": 0, "dur": d, "amp": 66}]] for nm in names]
+        if k > 0:
+            for _, notes in c["parts"]:
+                if rng.random() < 0.6:
+                    notes[0].update(dir=rng.choice("ud"), val=rng.randrange(4))
+    return tgt
 
 
 def chord_key(c):
@@ -58,12 +73,16 @@ class Plain(Stream):
                 tgt = [{**{k: c[k] for k in ("elem", "fig", "tdeg", "tmode", "toct", "coct")},
                         "parts": [[TARGET_NAMES[0], [{"kind": "s", "val": rng.randrange(7), "oct": 0,
                                                       "dur": rng.choice([F(1), F(1, 2), F(2), F(3), F(3, 2)]), "amp": 66}]]]} for c in src[:keep_n]]
-            yield {"src": src, "tgt": tgt, "keep": i % 3 == 0}
+            case = {"src": src, "tgt": tgt, "keep": i % 3 == 0}
+            if i % 7 == 5:
+                # the second public entry point: a one-chord source projected through Chord.project_on_score
+                case["src"], case["via_chord"] = src[:1], True
+            yield case
 
     def impl(self, case):
         def f():
             s, g = sg.mk_rscore(case["src"]), sg.mk_rscore(case["tgt"])
-            res = s.project_on_score(g, voice_leading=False, keep_score=case["keep"])
+            res = (s.chords[0] if case.get("via_chord") else s).project_on_score(g, voice_leading=False, keep_score=case["keep"])
             return {"score": sg.read_score(res), "dur": F(res.duration), "sdur": F(s.duration), "gdur": F(g.duration)}
         return mlang.guarded(f)
 
@@ -120,7 +139,7 @@ class Plain(Stream):
         return len(case["tgt"]) > 1
 
     def hist_keys(self, case, r):
-        return ["keep_score" if case["keep"] else "no_keep", "exc" if mlang.is_exc(r) else "ok"]
+        return ["keep_score" if case["keep"] else "no_keep", "exc" if mlang.is_exc(r) else "ok", "Chord.project_on_score" if case.get("via_chord") else "Score.project_on_score"]
 
     def shrink(self, case):
         for s in sg.shrink_score(case["src"]):
@@ -143,14 +162,22 @@ class Modes(Stream):
             case = {"src": src, "tgt": rand_target(rng), "keep_pitch": i % 2 == 1}
             if i % 6 >= 4:
                 case["repeat"] = True        # repeat_to_duration=True: a source shorter than the target is repeated first
+            elif i % 6 >= 2:
+                # keep_score with either mode: the target's own parts (relative notes at chord heads included) stay beside the projected ones
+                case["keep_score"] = True
+                case["tgt"] = relative_heads(rng, case["tgt"])
+                case["voice_leading"] = rng.random() < 0.5
             yield case
 
     def impl(self, case):
         def f():
             s, g = sg.mk_rscore(case["src"]), sg.mk_rscore(case["tgt"])
-            res = s.project_on_score(g, keep_pitch=case["keep_pitch"], **({"repeat_to_duration": True} if case.get("repeat") else {}))
+            kw = {"repeat_to_duration": True} if case.get("repeat") else {}
+            if case.get("keep_score"):
+                kw.update(keep_score=True, voice_leading=case["voice_leading"])
+            res = s.project_on_score(g, keep_pitch=case["keep_pitch"], **kw)
             return {"chords": [chord_key(c) for c in sg.read_score(res)], "dur": F(res.duration), "sdur": F(s.duration), "gdur": F(g.duration),
-                    "sound": sounding(res), "src_sound": sounding(s)}
+                    "sound": sounding(res), "src_sound": sounding(s), "tgt_sound": sounding(g)}
         return mlang.guarded(f)
 
     def spec(self, case, r):
@@ -174,7 +201,15 @@ class Modes(Stream):
                         if w is not None and w != x[0]:
                             return {"sig": "projection-keep-pitch:repeat", "msg": f"part {nm} at {x[1]}: pitch {x[0]}, the source plays {w} there"}
             return None
-        if r["dur"] != want_dur:
+        if case.get("keep_score"):
+            # the target's parts are retained unchanged: they sound as they do in the target (the result may last as long as they do)
+            kept = sg.total_dur(case["tgt"][:len(r["chords"])])            # the result holds the target's chords up to the one the source ends in
+            for nm, evs in r["tgt_sound"].items():
+                evs = [x for x in evs if x[1] < kept]
+                if r["sound"].get(nm, []) != evs:
+                    return {"sig": "projection-keep-score:target-part-changed", "msg": f"target part {nm}: {r['sound'].get(nm, [])[:5]} vs {evs[:5]}"}
+            r = dict(r, sound={nm: [x for x in evs if x[1] < want_dur] for nm, evs in r["sound"].items()})
+        elif r["dur"] != want_dur:
             return {"sig": "projection-duration", "msg": f"{r['dur']} vs {want_dur}"}
         if r["chords"] != [chord_key(c) for c in case["tgt"]][:len(r["chords"])]:
             return {"sig": "projection-chords", "msg": str(r["chords"])}
@@ -188,7 +223,7 @@ class Modes(Stream):
         return None
 
     def hist_keys(self, case, r):
-        return [("keep_pitch" if case["keep_pitch"] else "default") + (":repeat" if case.get("repeat") else "")]
+        return [("keep_pitch" if case["keep_pitch"] else "default") + (":repeat" if case.get("repeat") else "") + (":keep_score" if case.get("keep_score") else "")]
 
     def shrink(self, case):
         from harness.props.C11 import fix_relative
